@@ -838,6 +838,7 @@ def judge(c, impl, model, findings, stats):
         return bad("violation", "utf8-roundtrip", "chars_utf8bytes does not decode its own output back to the chars: %s" % raw[:300], impl=raw[:80])
     if fam == "utf8dec":
         spec, _, mech = mv.partition(" mech=")
+        mech, _, mechfix = mech.partition(" mechfix=")     # HEAD clauses / clauses with the proposed patch
         spec = spec[len("spec="):]
         sp = model_ok(spec)
         if isinstance(ans, dict) and "E" in ans:
@@ -854,11 +855,11 @@ def judge(c, impl, model, findings, stats):
         if sp != pyref:
             return bad("disagreement", "utf8-model-vs-python", "strict model %r python %r" % (spec, pyref))
         if sp is not None:
-            if model_ok(iv) == sp and mech == spec:
+            if model_ok(iv) == sp and mech == spec and mechfix == spec:
                 return True
             if model_ok(iv) != sp:
                 return bad("violation", "utf8-decode", "well-formed UTF-8 decoded wrongly: expected %s, got %s" % (spec, iv), impl=iv[:80])
-            return bad("disagreement", "utf8-mech-model", "mechanism model %s, implementation %s" % (mech, iv))
+            return bad("disagreement", "utf8-mech-model", "mechanism model %s / %s, implementation %s" % (mech, mechfix, iv))
         # ill-formed input
         stats["errors"]["utf8dec:ill-formed:" + ("repr" if iv == "repr" else "replaced" if model_ok(iv) is not None and 0xfffd in model_ok(iv) else "other")] = \
             stats["errors"].get("utf8dec:ill-formed:" + ("repr" if iv == "repr" else "replaced" if model_ok(iv) is not None and 0xfffd in model_ok(iv) else "other"), 0) + 1
@@ -866,8 +867,9 @@ def judge(c, impl, model, findings, stats):
         if got is not None and 0xfffd not in got:
             return bad("violation", "ill-formed-accepted",
                        "ill-formed UTF-8 (RFC 3629 / Unicode Table 3-7) is decoded to characters %r without U+FFFD or an error" % (got,), impl=iv[:80])
-        if iv != mech:
-            return bad("disagreement", "utf8-mech-model", "mechanism model %s, implementation %s" % (mech, iv))
+        if iv != mech and iv != mechfix:
+            return bad("disagreement", "utf8-mech-model", "mechanism model %s (HEAD) / %s (patched), implementation %s" % (mech, mechfix, iv))
+        stats["mech_variant"]["head" if iv == mech and iv != mechfix else "patched" if iv != mech else "same"] += 1
         return True
     if fam == "digest":
         if c.get("expect_err"):
@@ -902,6 +904,18 @@ def judge(c, impl, model, findings, stats):
     return True
 
 
+IMPL_ENV = {"SV_TIMEOUT_MS": "120000"}   # none of the generated goals can loop; the default 10 s only bites under load
+
+
+def infra_bad(c, impl):
+    for l in c["impl"][:-1]:
+        if not impl.get(l.split("\t")[1], "missing").startswith("true"):
+            return True
+    r = impl.get(c["id"], "missing")
+    return (r == "missing" or r.startswith(("timeout", "abort(", "skipped(", "panic("))
+            or "existence_error'('procedure'" in r)
+
+
 def nontrivial(c):
     fam = c["family"]
     if fam in ("hexenc", "b64enc"):
@@ -932,9 +946,15 @@ def run(ctx):
                     f[1] = c["id"]
                     c["model"] = ["\t".join(f)]
             seen.add(c["id"])
-    impl, model = diff.run_cases(cases)
+    impl, model = diff.run_cases(cases, impl_env=IMPL_ENV)
+    # infrastructure hiccups (a library load hitting the watchdog on an overloaded host, a worker
+    # that died): re-run those cases once, serially, before judging anything.
+    retry = [c for c in cases if infra_bad(c, impl)]
+    if retry:
+        impl2, _ = diff.run_cases([dict(c, model=[]) for c in retry], impl_env=IMPL_ENV, parallel=False)
+        impl.update(impl2)
     findings = []
-    stats = {"errors": {}}
+    stats = {"errors": {}, "mech_variant": {"head": 0, "patched": 0, "same": 0}}
     agree = 0
     fam_count, distinct = {}, set()
     oracle_only = 0
@@ -962,8 +982,10 @@ def run(ctx):
         "disagreements_checked": len(cases) - agree,
         "families": fam_count,
         "error_kinds_hit": stats["errors"],
+        "utf8dec_illformed_matches_mechanism_variant": stats["mech_variant"],
         "length_histogram": lens,
         "oracle_only_cases_not_theorem": oracle_only,
+        "infrastructure_retries": len(retry),
         "exhaustive": False,
         "findings": findings,
     }
